@@ -52,6 +52,7 @@ type Solver struct {
 	ctx       *Ctx
 	logf      *os.File
 	lastErr   string
+	site      string
 }
 
 func solverArgv(kind string, timeoutMs int) []string {
@@ -140,8 +141,14 @@ func (s *Solver) BeginPath(ctx *Ctx) {
 
 func (s *Solver) base(txt string) {
 	s.transcript.WriteString(txt)
-	s.send(txt)
+	if !oneShot {
+		s.send(txt)
+	}
 }
+
+// oneShot: every query is sent as a self-contained script after (reset), so z3 uses its one-shot tactic
+// pipeline instead of the (much slower on these problems) incremental core.
+var oneShot = true
 
 // prepare emits declarations and definitions needed for t at level 0 and returns its reference.
 func (s *Solver) prepare(t *Term) string {
@@ -171,6 +178,7 @@ func (s *Solver) Assert(t *Term) {
 }
 
 var queryCounter int64
+var slowLogMs int64
 
 // Check decides satisfiability of (path condition AND extra). If wantModel, values of vars are returned on sat.
 func (s *Solver) Check(extra *Term, wantModel []*Term) (Result, map[string]uint64) {
@@ -189,12 +197,20 @@ func (s *Solver) Check(extra *Term, wantModel []*Term) (Result, map[string]uint6
 		}
 	}
 	var q strings.Builder
-	q.WriteString("(push 1)\n(assert " + ref + ")\n(check-sat)\n")
-	res, model := s.runQuery(q.String(), wantModel, true)
+	if oneShot {
+		q.WriteString(s.transcript.String())
+		q.WriteString("(assert " + ref + ")\n(check-sat)\n")
+	} else {
+		q.WriteString("(push 1)\n(assert " + ref + ")\n(check-sat)\n")
+	}
+	res, model := s.runQuery(q.String(), wantModel, !oneShot)
 	el := time.Since(t0)
 	atomic.AddInt64(&globalStats.Queries, 1)
 	atomic.AddInt64(&globalStats.TimeNs, int64(el))
 	ms := el.Milliseconds()
+	if slowLogMs > 0 && ms >= slowLogMs {
+		fmt.Fprintf(os.Stderr, "SLOW-QUERY %dms res=%v site=%s len=%d\n", ms, res, s.site, len(ref))
+	}
 	for {
 		old := atomic.LoadInt64(&globalStats.MaxMs)
 		if ms <= old || atomic.CompareAndSwapInt64(&globalStats.MaxMs, old, ms) {
@@ -269,7 +285,9 @@ func (s *Solver) restart() {
 		s.cmd.Wait()
 	}
 	s.start()
-	s.send(s.transcript.String())
+	if !oneShot {
+		s.send(s.transcript.String())
+	}
 }
 
 type lineRes struct {
